@@ -169,6 +169,14 @@ def pinnedRows (i : Inp α) (nm : String) (expr : Aff α) (minCons : α) (m : Na
   let hi : α := if i.pop < 1e7 then 1.0001 * minCons else 1.00001 * minCons
   [ row (nm ++ "_Min_Requirement") m expr .ge (k lo), row (nm ++ "_Max_Requirement") m expr .le (k hi) ]
 
+/-- the pin of seaweed after the repair of the round-2 infeasibility (C16): only the lower row
+    `Seaweed_Min_Requirement` (same name and format as in `pinnedRows`).  Seaweed that has grown must
+    be harvested (equality ledger, density ceiling, no disposal), so an upper pin on what people eat
+    of it can make the feed-maximising round infeasible. -/
+def pinnedRowsLower (i : Inp α) (nm : String) (expr : Aff α) (minCons : α) (m : Nat) : List (Row α) :=
+  let lo : α := if i.pop < 1e7 then 0.9999 * minCons else 0.99999 * minCons
+  [ row (nm ++ "_Min_Requirement") m expr .ge (k lo) ]
+
 /-- one resource: for every month its own rows, then (feed round) the pinned consumption rows -/
 def resourceRows (i : Inp α) (kind : Kind) (on : Bool) (f : Nat → List (Row α)) (pin : Nat → List (Row α)) : List (Row α) :=
   if on then (List.range i.nmonths).flatMap (fun m => f m ++ (if kind = .toAnimals then pin m else [])) else []
@@ -251,10 +259,12 @@ def objectiveRows (i : Inp α) (kind : Kind) : List (Row α) :=
   | .toAnimals =>
       [⟨"Nonhuman_Consumption_All_Months_Objective_Constraint", Aff.var .objective, .le, nonhumanObjective i⟩]
 
-/-- the linear programme of the first solve of a round (`model` at the moment CBC is first called) -/
-def buildLP (i : Inp α) (kind : Kind) : List (Row α) :=
+/-- the linear programme with the pinning rule of seaweed as a parameter (the other five foods are
+    pinned from both sides) -/
+def buildLPWith (seaweedPin : Inp α → String → Aff α → α → Nat → List (Row α))
+    (i : Inp α) (kind : Kind) : List (Row α) :=
   resourceRows i kind i.addSeaweed (seaweedRows i)
-      (fun m => pinnedRows i "Seaweed" (mulr (mv .swHumans m) i.seaweedKcals) (at' i.minSeaweed m) m) ++
+      (fun m => seaweedPin i "Seaweed" (mulr (mv .swHumans m) i.seaweedKcals) (at' i.minSeaweed m) m) ++
   resourceRows i kind i.addOutdoor (cropRows i kind)
       (fun m => pinnedRows i "Outdoor_crops" (mv .cropHumans m) (at' i.minCrops m) m) ++
   resourceRows i kind i.addStored (storedRows i kind)
@@ -267,6 +277,14 @@ def buildLP (i : Inp α) (kind : Kind) : List (Row α) :=
       (fun m => pinnedRows i "Cellulosic_Sugar" (mv .csHumans m) (at' i.minCs m) m) ++
   (List.range i.nmonths).flatMap (generalRows i kind) ++
   objectiveRows i kind
+
+/-- the linear programme of the first solve of a round (`model` at the moment CBC is first called);
+    seaweed is pinned from below only -/
+def buildLP (i : Inp α) (kind : Kind) : List (Row α) := buildLPWith pinnedRowsLower i kind
+
+/-- the programme as it was before the repair: seaweed pinned from both sides like the other foods
+    (kept for the counter-example `C16.round2_seaweed_pin_infeasible_before_fix`) -/
+def buildLPBeforeSeaweedFix (i : Inp α) (kind : Kind) : List (Row α) := buildLPWith pinnedRows i kind
 
 /-! ### rows added for the later, tie-breaking solves (the reported allocation satisfies these too) -/
 
